@@ -166,6 +166,13 @@ func MayCrash(site string) {
 	}
 }
 
+// CrashNow unwinds to the enclosing RunUntilCrash (no-op outside one).
+func CrashNow() {
+	if crashArmed {
+		panic(crashed{})
+	}
+}
+
 // RunUntilCrash runs f; a MayCrash inside it that fires unwinds to here.
 // NOTE: natively deferred calls of the unwound frames do run (panic semantics); the
 // symbolic executor skips them. Harnesses must not depend on the difference.
